@@ -176,6 +176,28 @@ func Generate(family string, seed int64, idx int) Scenario {
 			end = t + 2*sc.P.HeartbeatMs
 		}
 		sc.Steps, sc.EndMs = steps, end+4*sc.P.HeartbeatMs
+	case "lease":
+		genLease(r, &sc)
+	case "quiet":
+		genQuiet(r, &sc)
+	case "prevote":
+		genPreVote(r, &sc)
+	case "verify":
+		genVerify(r, &sc)
+	case "restore":
+		genRestore(r, &sc)
+	case "crashpoints":
+		genCrashPoints(r, &sc)
+	case "fig8":
+		genFig8(r, &sc)
+	case "notify":
+		genNotify(r, &sc)
+	case "elections":
+		genElections(r, &sc)
+	case "clients":
+		genClients(r, &sc)
+	case "lagging":
+		genLagging(r, &sc)
 	case "churn":
 		if sc.P.Spares == 0 {
 			sc.P.Spares = 1
@@ -184,4 +206,395 @@ func Generate(family string, seed int64, idx int) Scenario {
 		sc.Steps, sc.EndMs = randomSteps(r, sc.P, 10+r.Intn(25), true)
 	}
 	return sc
+}
+
+// ---- targeted families ----
+
+func noStoreFaults(p *Params) {}
+
+// genLease (C13 first half, C09): the leader loses its voter majority at a
+// known instant; clean timing (no random message faults), non-voters present.
+func genLease(r *rand.Rand, sc *Scenario) {
+	p := &sc.P
+	p.Voters = pick(r, 3, 3, 5, 4, 2)
+	p.NonVoters = pick(r, 0, 1, 2)
+	p.Spares = 0
+	p.PreVoteOff = make([]bool, p.N())
+	p.LeaseMs = pick(r, p.HeartbeatMs/3, p.HeartbeatMs/2, p.HeartbeatMs)
+	p.ApplyDelayMs, p.PersistDelayMs, p.RestoreDelayMs = 0, 0, 0
+	p.ShutdownOnRemove = false
+	sc.WVerify = 10
+	t := 4 * p.HeartbeatMs
+	for i := 0; i < 2+r.Intn(3); i++ {
+		t += p.HeartbeatMs + r.Intn(3*p.HeartbeatMs)
+		sc.Steps = append(sc.Steps, Step{At: t, Act: "lease-cut", V: []float64{float64(r.Intn(3))}})
+		// writes and verifications against the cut-off leader, before and after its lease runs out
+		for k := 1; k <= 6; k++ {
+			at := t + k*p.LeaseMs/2 + r.Intn(10)
+			sc.Steps = append(sc.Steps, Step{At: at, Act: "apply-cut-leader"}, Step{At: at + 1, Act: "verify-cut-leader"})
+		}
+		t += 4*p.LeaseMs + 2*p.ElectionMs + r.Intn(2*p.HeartbeatMs)
+		sc.Steps = append(sc.Steps, Step{At: t, Act: "heal"})
+		t += 3 * p.ElectionMs
+	}
+	sortSteps(sc.Steps)
+	sc.EndMs = t + 2*p.HeartbeatMs
+}
+
+// genQuiet (C13 second half): a long fault-free run.
+func genQuiet(r *rand.Rand, sc *Scenario) {
+	p := &sc.P
+	p.Voters = pick(r, 3, 5, 4)
+	p.NonVoters = pick(r, 0, 1)
+	p.Spares = 0
+	p.PreVoteOff = make([]bool, p.N())
+	p.HeartbeatMs = pick(r, 500, 1000)
+	p.ElectionMs = p.HeartbeatMs
+	p.LeaseMs = pick(r, p.HeartbeatMs/2, p.HeartbeatMs)
+	p.ApplyDelayMs, p.PersistDelayMs, p.RestoreDelayMs = 0, 0, 0
+	p.ShutdownOnRemove = false
+	sc.Quiet = true
+	sc.Family = "quiet"
+	sc.Clients = 1
+	sc.ThinkMs = 400
+	sc.WAnyNode = 0
+	sc.ApplyTimeoutMs = []int{500}
+	// light seeded message delays below Lease/4
+	d := float64(p.LeaseMs / 5)
+	sc.Steps = []Step{{At: 1, Act: "netfaults", V: []float64{0, 0, 0.3, 0, d}}}
+	sc.EndMs = pick(r, 120, 300, 600) * 1000
+}
+
+// genPreVote (C14): isolated minorities with pre-vote enabled.
+func genPreVote(r *rand.Rand, sc *Scenario) {
+	p := &sc.P
+	p.Voters = pick(r, 3, 5, 4, 5)
+	p.NonVoters = 0
+	p.Spares = 0
+	p.PreVoteOff = make([]bool, p.N())
+	p.ShutdownOnRemove = false
+	mixed := r.Intn(3) == 0
+	sc.WAnyNode = 10
+	t := 4 * p.HeartbeatMs
+	for i := 0; i < 1+r.Intn(3); i++ {
+		k := 1
+		if p.Voters >= 5 && r.Intn(2) == 0 {
+			k = 2
+		}
+		var iso []int
+		for len(iso) < k {
+			x := r.Intn(p.Voters)
+			dup := false
+			for _, y := range iso {
+				dup = dup || y == x
+			}
+			if !dup {
+				iso = append(iso, x)
+			}
+		}
+		if mixed {
+			// some of the others run without pre-vote; the isolated ones keep it
+			for j := range p.PreVoteOff {
+				p.PreVoteOff[j] = r.Intn(2) == 0
+			}
+			for _, x := range iso {
+				p.PreVoteOff[x] = false
+			}
+		}
+		t += p.HeartbeatMs + r.Intn(4*p.HeartbeatMs)
+		sc.Steps = append(sc.Steps, Step{At: t, Act: "pv-isolate", N: iso})
+		t += p.ElectionMs * (1 + r.Intn(60))
+		sc.Steps = append(sc.Steps, Step{At: t, Act: "heal"})
+		t += 5 * p.ElectionMs
+		sc.Steps = append(sc.Steps, Step{At: t, Act: "pv-check"})
+		if mixed {
+			break // PreVoteOff is static: one isolation per mixed run
+		}
+	}
+	sc.EndMs = t + p.HeartbeatMs
+}
+
+// genVerify (C09): configurations mixing voters and non-voters, the leader
+// cut off from voters while non-voters stay reachable, VerifyLeader before,
+// at and after the cut and during elections elsewhere.
+func genVerify(r *rand.Rand, sc *Scenario) {
+	p := &sc.P
+	shape := pick(r, [2]int{3, 0}, [2]int{3, 1}, [2]int{3, 2}, [2]int{2, 1}, [2]int{4, 1}, [2]int{5, 0}, [2]int{1, 2}, [2]int{5, 2})
+	p.Voters, p.NonVoters, p.Spares = shape[0], shape[1], 0
+	p.PreVoteOff = make([]bool, p.N())
+	p.LeaseMs = p.HeartbeatMs // the longest lease allowed: a cut-off leader lives long enough to be asked
+	p.ShutdownOnRemove = false
+	sc.WVerify = 25
+	sc.WAnyNode = 30
+	t := 4 * p.HeartbeatMs
+	for i := 0; i < 3+r.Intn(3); i++ {
+		t += p.HeartbeatMs/2 + r.Intn(2*p.HeartbeatMs)
+		sc.Steps = append(sc.Steps, Step{At: t - 5, Act: "verify", N: []int{-1}}, Step{At: t, Act: "lease-cut", V: []float64{float64(pick(r, 1, 1, 2, 0))}})
+		for k := 0; k < 8; k++ {
+			sc.Steps = append(sc.Steps, Step{At: t + k*p.LeaseMs/4 + r.Intn(5), Act: "verify-cut-leader"})
+		}
+		t += 3*p.ElectionMs + r.Intn(2*p.HeartbeatMs)
+		sc.Steps = append(sc.Steps, Step{At: t - p.ElectionMs, Act: "verify-cut-leader"}, Step{At: t, Act: "heal"})
+		t += 2 * p.ElectionMs
+	}
+	sortSteps(sc.Steps)
+	sc.EndMs = t + p.HeartbeatMs
+}
+
+// genRestore (C20): user Restore at every position relative to the log, with
+// writes, membership changes and transfers in flight and followers lagging.
+func genRestore(r *rand.Rand, sc *Scenario) {
+	p := &sc.P
+	p.Voters = pick(r, 3, 3, 5, 1, 2)
+	p.NonVoters = pick(r, 0, 0, 1)
+	p.Spares = pick(r, 0, 1)
+	p.PreVoteOff = make([]bool, p.N())
+	p.RestoreCommitted = false
+	p.ShutdownOnRemove = false
+	sc.Clients = pick(r, 0, 1, 2, 4)
+	t := 4 * p.HeartbeatMs
+	for i := 0; i < 1+r.Intn(3); i++ {
+		t += p.HeartbeatMs + r.Intn(3*p.HeartbeatMs)
+		sc.Steps = append(sc.Steps, Step{At: t, Act: "burst", N: []int{r.Intn(8)}})
+		switch r.Intn(6) {
+		case 0:
+			sc.Steps = append(sc.Steps, Step{At: t + 1, Act: "isolate", N: []int{r.Intn(p.N())}})
+		case 1:
+			sc.Steps = append(sc.Steps, Step{At: t + 1, Act: "crash", N: []int{r.Intn(p.N())}})
+		case 2:
+			sc.Steps = append(sc.Steps, Step{At: t + 1, Act: "member", S: pick(r, "addvoter", "addnonvoter", "demote", "remove"), N: []int{r.Intn(p.N())}})
+		case 3:
+			sc.Steps = append(sc.Steps, Step{At: t + 1, Act: "transfer", N: []int{-1}})
+		}
+		sc.Steps = append(sc.Steps, Step{At: t + 2 + r.Intn(3), Act: "restore", V: []float64{float64(r.Intn(5))}}, Step{At: t + 3 + r.Intn(5), Act: "burst", N: []int{r.Intn(5)}})
+		t += 2*p.HeartbeatMs + r.Intn(3*p.HeartbeatMs)
+		sc.Steps = append(sc.Steps, Step{At: t, Act: "heal"}, Step{At: t + 1, Act: "restartall"})
+	}
+	sortSteps(sc.Steps)
+	sc.EndMs = t + 2*p.HeartbeatMs
+}
+
+var opKinds = []string{"store", "del.suffix", "del.prefix", "del.all", "setu.CurrentTerm", "setu.LastVoteTerm", "set.LastVoteCand", "snap.create", "snap.write", "snap.close"}
+
+// genCrashPoints (C10, C11, C06): a crash before / after the k-th occurrence
+// of every kind of store operation, on runs with elections, replication,
+// truncation, snapshots, compaction, installs and membership changes.
+func genCrashPoints(r *rand.Rand, sc *Scenario) {
+	p := &sc.P
+	p.Voters = pick(r, 3, 3, 5, 2, 1)
+	p.Trailing = pick[uint64](r, 0, 2, 16)
+	p.SnapThreshold = pick[uint64](r, 4, 8, 32)
+	p.SnapIntervalS = pick(r, 100, 300)
+	p.RestoreCommitted = r.Intn(2) == 0
+	if p.RestoreCommitted {
+		p.LogCache = 0
+	}
+	p.ShutdownOnRemove = false
+	sc.AutoRestartMs = pick(r, 50, 300, 1000)
+	steps, end := randomSteps(r, *p, 6+r.Intn(10), p.Spares > 0)
+	t := 3 * p.HeartbeatMs
+	for i := 0; i < 8+r.Intn(10); i++ {
+		t += p.HeartbeatMs/3 + r.Intn(2*p.HeartbeatMs)
+		steps = append(steps, Step{At: t, Act: pick(r, "arm", "arm", "arm-leader"), N: []int{r.Intn(p.N())},
+			F: &Fault{Kind: pick(r, opKinds...), Nth: 1 + r.Intn(4), When: pick(r, "before", "after", "before", "after", "error")}})
+	}
+	sortSteps(steps)
+	if t > end {
+		end = t
+	}
+	sc.Steps, sc.EndMs = steps, end+2*p.HeartbeatMs
+}
+
+// genFig8 (C03, C02, C04, C05): leaders are repeatedly cut off together with
+// a minority right after a burst of writes, so old-term entries sit on some
+// servers without being committed while later terms move on; crashes and
+// restarts of several servers in between.
+func genFig8(r *rand.Rand, sc *Scenario) {
+	p := &sc.P
+	p.Voters = pick(r, 5, 5, 3, 4)
+	p.NonVoters, p.Spares = 0, 0
+	p.PreVoteOff = make([]bool, p.N())
+	if r.Intn(3) == 0 {
+		for i := range p.PreVoteOff {
+			p.PreVoteOff[i] = true
+		}
+	}
+	p.Trailing = pick[uint64](r, 0, 2, 16, 10240)
+	p.SnapThreshold = pick[uint64](r, 4, 32, 8192)
+	p.ShutdownOnRemove = false
+	sc.AutoRestartMs = 0
+	t := 3 * p.HeartbeatMs
+	for i := 0; i < 4+r.Intn(8); i++ {
+		t += p.HeartbeatMs/2 + r.Intn(2*p.HeartbeatMs)
+		sc.Steps = append(sc.Steps, Step{At: t, Act: "burst", N: []int{1 + r.Intn(6)}})
+		switch r.Intn(5) {
+		case 0, 1:
+			sc.Steps = append(sc.Steps, Step{At: t + r.Intn(3), Act: "lease-cut", V: []float64{2}}) // leader + a minority
+		case 2:
+			sc.Steps = append(sc.Steps, Step{At: t + r.Intn(3), Act: "crash-leader"})
+		case 3:
+			sc.Steps = append(sc.Steps, Step{At: t + r.Intn(3), Act: "arm-leader", F: &Fault{Kind: "store", Nth: 1 + r.Intn(2), When: pick(r, "before", "after", "error")}})
+		case 4:
+			sc.Steps = append(sc.Steps, Step{At: t + r.Intn(3), Act: "isolate-leader"})
+		}
+		t += p.ElectionMs + r.Intn(3*p.ElectionMs)
+		sc.Steps = append(sc.Steps, Step{At: t, Act: "burst", N: []int{1 + r.Intn(4)}})
+		if r.Intn(3) == 0 {
+			sc.Steps = append(sc.Steps, Step{At: t + 2, Act: "crash", N: []int{r.Intn(p.N())}}, Step{At: t + 3, Act: "crash", N: []int{r.Intn(p.N())}})
+		}
+		t += p.HeartbeatMs/2 + r.Intn(p.HeartbeatMs)
+		sc.Steps = append(sc.Steps, Step{At: t, Act: pick(r, "heal", "heal", "restartall")})
+		if r.Intn(2) == 0 {
+			sc.Steps = append(sc.Steps, Step{At: t + 1, Act: "restartall"})
+		}
+	}
+	sortSteps(sc.Steps)
+	sc.EndMs = t + 2*p.HeartbeatMs
+}
+
+// genNotify (C18): frequent leadership transitions with slow consumers.
+func genNotify(r *rand.Rand, sc *Scenario) {
+	p := &sc.P
+	p.Voters = pick(r, 3, 3, 1, 5, 2)
+	p.NonVoters = pick(r, 0, 1)
+	p.NotifyBuf = pick(r, 0, 1)
+	p.NotifyDelayMs = pick(r, 0, 20, p.ElectionMs, 3*p.ElectionMs)
+	p.ShutdownOnRemove = false
+	sc.WAnyNode = 30
+	t := 3 * p.HeartbeatMs
+	for i := 0; i < 8+r.Intn(12); i++ {
+		t += p.HeartbeatMs/2 + r.Intn(2*p.HeartbeatMs)
+		switch r.Intn(6) {
+		case 0, 1:
+			sc.Steps = append(sc.Steps, Step{At: t, Act: "isolate-leader"}, Step{At: t + p.LeaseMs*2 + r.Intn(2*p.ElectionMs), Act: "heal"})
+			t += p.LeaseMs*2 + 2*p.ElectionMs
+		case 2, 3:
+			sc.Steps = append(sc.Steps, Step{At: t, Act: "transfer", N: []int{r.Intn(p.N()+1) - 1}})
+		case 4:
+			sc.Steps = append(sc.Steps, Step{At: t, Act: "member", S: pick(r, "remove", "demote", "addvoter"), N: []int{r.Intn(p.N())}})
+		case 5:
+			sc.Steps = append(sc.Steps, Step{At: t, Act: "crash-leader"}, Step{At: t + p.HeartbeatMs, Act: "restartall"})
+		}
+		sc.Steps = append(sc.Steps, Step{At: t + 1, Act: "sample"}, Step{At: t + p.HeartbeatMs/3, Act: "sample"})
+	}
+	sortSteps(sc.Steps)
+	sc.EndMs = t + 2*p.HeartbeatMs
+}
+
+// genElections (C01, C06): contested elections with heavy message delay and
+// duplication, crashes around the vote writes, restarts of everybody,
+// transfers racing with partitions, membership changes racing with elections.
+func genElections(r *rand.Rand, sc *Scenario) {
+	p := &sc.P
+	p.Voters = pick(r, 3, 5, 4, 2, 5)
+	p.NonVoters = pick(r, 0, 0, 1)
+	p.Spares = pick(r, 0, 1, 2)
+	p.PreVoteOff = make([]bool, p.N())
+	for i := range p.PreVoteOff {
+		p.PreVoteOff[i] = r.Intn(2) == 0
+	}
+	p.ShutdownOnRemove = r.Intn(4) == 0
+	sc.AutoRestartMs = pick(r, 0, 100, 500)
+	t := 2 * p.HeartbeatMs
+	sc.Steps = append(sc.Steps, Step{At: t, Act: "netfaults", V: []float64{pick(r, 0, 0.1), pick(r, 0, 0.1), pick(r, 0.3, 0.8), pick(r, 0.1, 0.4), float64(pick(r, p.ElectionMs/2, p.ElectionMs, 3*p.ElectionMs))}})
+	for i := 0; i < 10+r.Intn(15); i++ {
+		t += p.HeartbeatMs/3 + r.Intn(2*p.HeartbeatMs)
+		switch r.Intn(9) {
+		case 0:
+			sc.Steps = append(sc.Steps, Step{At: t, Act: "isolate-leader"})
+		case 1:
+			sc.Steps = append(sc.Steps, Step{At: t, Act: "oneway", N: []int{r.Intn(p.N()), r.Intn(p.N())}})
+		case 2:
+			sc.Steps = append(sc.Steps, Step{At: t, Act: "heal"})
+		case 3:
+			sc.Steps = append(sc.Steps, Step{At: t, Act: "arm", N: []int{r.Intn(p.N())}, F: &Fault{Kind: pick(r, "setu.CurrentTerm", "setu.LastVoteTerm", "set.LastVoteCand"), Nth: 1 + r.Intn(2), When: pick(r, "before", "after", "error")}})
+		case 4:
+			for j := 0; j < p.N(); j++ {
+				sc.Steps = append(sc.Steps, Step{At: t, Act: "crash", N: []int{j}})
+			}
+			sc.Steps = append(sc.Steps, Step{At: t + r.Intn(p.HeartbeatMs), Act: "restartall"})
+		case 5:
+			sc.Steps = append(sc.Steps, Step{At: t, Act: "transfer", N: []int{r.Intn(p.N()+1) - 1}}, Step{At: t + r.Intn(5), Act: pick(r, "isolate-leader", "wait")})
+		case 6:
+			sc.Steps = append(sc.Steps, Step{At: t, Act: "member", S: pick(r, "addvoter", "addvoter", "demote", "remove", "addnonvoter"), N: []int{r.Intn(p.N())}})
+		case 7:
+			sc.Steps = append(sc.Steps, Step{At: t, Act: "restartall"})
+		case 8:
+			sc.Steps = append(sc.Steps, Step{At: t, Act: "crash-leader"})
+		}
+	}
+	sortSteps(sc.Steps)
+	sc.EndMs = t + 2*p.HeartbeatMs
+}
+
+// genClients (C08): many concurrent callers against any server, every call
+// kind, enqueue timeouts 0 / 1 ms / long, leader changes and transfers.
+func genClients(r *rand.Rand, sc *Scenario) {
+	p := &sc.P
+	p.Voters = pick(r, 3, 3, 5, 1)
+	p.Spares = 0
+	p.ShutdownOnRemove = false
+	sc.Clients = pick(r, 2, 4, 6)
+	sc.Keys = pick(r, 1, 2)
+	sc.ThinkMs = pick(r, 5, 20, 60)
+	sc.WBarrier, sc.WVerify, sc.WGetConfig, sc.WAnyNode = 10, 3, 2, 35
+	sc.ApplyTimeoutMs = []int{0, 1, 1, 50, 500}
+	t := 3 * p.HeartbeatMs
+	for i := 0; i < 6+r.Intn(10); i++ {
+		t += p.HeartbeatMs/2 + r.Intn(2*p.HeartbeatMs)
+		switch r.Intn(7) {
+		case 0:
+			sc.Steps = append(sc.Steps, Step{At: t, Act: "isolate-leader"})
+		case 1:
+			sc.Steps = append(sc.Steps, Step{At: t, Act: "heal"})
+		case 2, 3:
+			sc.Steps = append(sc.Steps, Step{At: t, Act: "transfer", N: []int{r.Intn(p.N()+1) - 1}})
+		case 4:
+			sc.Steps = append(sc.Steps, Step{At: t, Act: "crash-leader"}, Step{At: t + p.HeartbeatMs, Act: "restartall"})
+		case 5:
+			sc.Steps = append(sc.Steps, Step{At: t, Act: "netfaults", V: []float64{pick(r, 0, 0.05), pick(r, 0, 0.1), pick(r, 0, 0.5), pick(r, 0, 0.2), 30}})
+		case 6:
+			sc.Steps = append(sc.Steps, Step{At: t, Act: "burst", N: []int{2 + r.Intn(8)}})
+		}
+	}
+	sc.EndMs = t + 2*p.HeartbeatMs
+}
+
+// genLagging (C12, C11): followers fall behind while the leader snapshots
+// and compacts past them; restarts; newly added servers; stale suffixes.
+func genLagging(r *rand.Rand, sc *Scenario) {
+	p := &sc.P
+	p.Voters = pick(r, 3, 3, 5)
+	p.Spares = pick(r, 0, 1)
+	p.Trailing = pick[uint64](r, 0, 2, 16)
+	p.SnapThreshold = pick[uint64](r, 4, 8)
+	p.SnapIntervalS = pick(r, 100, 300)
+	p.ShutdownOnRemove = false
+	sc.ThinkMs = pick(r, 5, 20)
+	t := 3 * p.HeartbeatMs
+	for i := 0; i < 3+r.Intn(5); i++ {
+		t += p.HeartbeatMs/2 + r.Intn(2*p.HeartbeatMs)
+		v := r.Intn(p.N())
+		switch r.Intn(4) {
+		case 0:
+			sc.Steps = append(sc.Steps, Step{At: t, Act: "isolate", N: []int{v}})
+		case 1:
+			sc.Steps = append(sc.Steps, Step{At: t, Act: "crash", N: []int{v}})
+		case 2:
+			sc.Steps = append(sc.Steps, Step{At: t, Act: "lease-cut", V: []float64{2}})
+		case 3:
+			sc.Steps = append(sc.Steps, Step{At: t, Act: "oneway", N: []int{v, r.Intn(p.N())}})
+		}
+		for k := 0; k < 2+r.Intn(4); k++ {
+			t += p.HeartbeatMs/2 + r.Intn(p.HeartbeatMs)
+			sc.Steps = append(sc.Steps, Step{At: t, Act: "burst", N: []int{3 + r.Intn(10)}}, Step{At: t + 5, Act: "snapshot", N: []int{-1}})
+		}
+		if p.Spares > 0 && r.Intn(2) == 0 {
+			sc.Steps = append(sc.Steps, Step{At: t + 6, Act: "member", S: pick(r, "addvoter", "addnonvoter"), N: []int{p.N() - 1}})
+		}
+		t += p.HeartbeatMs + r.Intn(2*p.HeartbeatMs)
+		sc.Steps = append(sc.Steps, Step{At: t, Act: "heal"}, Step{At: t + 1, Act: "restartall"})
+	}
+	sortSteps(sc.Steps)
+	sc.EndMs = t + 2*p.HeartbeatMs
 }
